@@ -207,6 +207,9 @@ def run(rep: Report, ctx: Any) -> str:
                 bad = [e for e in excs2 if not any(is_sub(e, w) for w in PYDANTIC_WRAPS) and not caught(e, hs)]
             else:
                 bad = [e for e in excs2 if not caught(e, hs)]
+                if bad:
+                    # not caught where it is raised: a private helper may leave that to its callers, every one of which must then catch
+                    bad = _escaping_callers(ix, f, bad, 0)
             key = f"{short(f)}::{suf}({norm(operand)[:40] if operand is not None else ''})"
             rep.check(not bad, "R06.2", key, f"`{norm(n)[:70]}` on a document-derived operand may raise {bad}, which no enclosing "
                       "try catches", where(f, n), lhs=f"{suf} raises {excs2}", rhs=f"handlers {hs}")
@@ -692,3 +695,72 @@ def _diagnostics_returned(rep: Report, ctx: Any) -> None:
                       "the failure is reported nowhere", where(f, rets[-1] if rets else f.node), lhs=[defs, sorted(set(firsts))],
                       rhs=f"`{tb}` bound once to an empty dict and returned by name")
     rep.floor("diagnostic_tables", n_inst, 1)
+
+
+def _tuple_pairs(g: Any, a_name: str, b_name: str) -> list[tuple[ast.expr, ast.expr]]:
+    """values given to locals a and b by the SAME tuple assignment `(.., a, .., b, ..) = (.., x, .., y, ..)` (correlated choices)"""
+    out = []
+    for st in ast.walk(g.node):
+        if isinstance(st, ast.Assign) and isinstance(st.targets[0], ast.Tuple) and isinstance(st.value, ast.Tuple) \
+                and len(st.targets[0].elts) == len(st.value.elts):
+            names = [t.id if isinstance(t, ast.Name) else None for t in st.targets[0].elts]
+            if a_name in names and b_name in names:
+                out.append((st.value.elts[names.index(a_name)], st.value.elts[names.index(b_name)]))
+    return out
+
+
+def _escaping_callers(ix: Any, f: Any, excs: list[str], depth: int) -> list[str]:
+    """exceptions of `excs` that can still escape when f is called: f must be a private helper (leading underscore or nested) whose
+    every call site - by name, or through a local the helper was assigned to - sits in a try that catches them.  A handler whose
+    type is a local is resolved through that local; when the callee variable and the handler variable are set by the same tuple
+    assignment, the pairing is respected (parse, error = _parse_json, ValueError)."""
+    from ..astutil import Locals
+
+    if depth > 2 or not (f.name.startswith("_") and not f.name.startswith("__") or f.parent is not None):
+        return excs
+    sites = []
+    for g in ix.all_functions:
+        if g.module is not f.module or g is f:
+            continue
+        lc = Locals(g.node)
+        carriers = {nm for nm in lc.defs if any(isinstance(x, ast.Name) and x.id == f.name for v in lc.values_of(nm) for x in ast.walk(v))}
+        for c in ast.walk(g.node):
+            if isinstance(c, ast.Call):
+                cn = call_name(c)
+                if cn == f.name or cn.endswith("." + f.name) and cn.split(".")[0] in ("self", "cls"):
+                    sites.append((g, c, None))
+                elif isinstance(c.func, ast.Name) and c.func.id in carriers:
+                    sites.append((g, c, c.func.id))
+    if not sites:
+        return excs
+    still: set[str] = set()
+    for g, c, carrier in sites:
+        lc = Locals(g.node)
+        stack = handlers_around(g.node, c)
+        resolved: list[list[str]] = []
+        for names in stack:
+            row: list[str] = []
+            for nm in names:
+                vals = lc.values_of(nm) if nm in lc.defs else []
+                if not vals:
+                    row.append(nm)
+                    continue
+                if carrier is not None:
+                    pairs = _tuple_pairs(g, carrier, nm)
+                    mine = [dotted(e) or "" for fv, e in pairs if isinstance(fv, ast.Name) and fv.id == f.name]
+                    if mine:
+                        # the handler type that goes with this callee; caught only if every such pairing catches
+                        row.append("&".join(sorted(set(mine))))
+                        continue
+                # an uncorrelated local: caught only if every value it may hold catches
+                alts = sorted({dotted(x) or "" for v in vals for x in ([v] if not isinstance(v, ast.Tuple) else v.elts)})
+                row.append("&".join(alts))
+            resolved.append(row)
+
+        def is_caught(e: str) -> bool:
+            return any(all(is_sub(e, part) for part in h.split("&")) for row in resolved for h in row if h)
+
+        left = [e for e in excs if not is_caught(e)]
+        if left:
+            still |= set(_escaping_callers(ix, g, left, depth + 1))
+    return sorted(still)
